@@ -119,14 +119,22 @@ def explore(mods, types, base, acc, want_samples=True):
     g = R.mem_grammar(PcfgGrammar, types, base)
     mult = grid_of(types, base)
     total = sum(mult.values())
-    q = PcfgQueue(g)
+    try:
+        q = PcfgQueue(g)
+    except Exception as e:
+        return [('C01', 'raise: PcfgQueue() raised %r' % (e,)), ('C02', 'raise: PcfgQueue() raised %r' % (e,))], []
     emitted = Counter()
     seq = []
     last = None
     npop = 0
     has_heap = hasattr(q, 'p_queue')
     while True:
-        it = q.next()
+        try:
+            it = q.next()
+        except Exception as e:
+            fails.append(('C01', 'raise: PcfgQueue.next() raised %r after %d pops' % (e, npop)))
+            fails.append(('C02', 'raise: PcfgQueue.next() raised %r after %d pops' % (e, npop)))
+            break
         if it is None:
             break
         npop += 1
@@ -202,6 +210,25 @@ def run_shard(shard, tier, acc, oracle):
         if rep:
             acc.count('rulesets_with_repeated_type')
         fails, seq = explore(mods, types, base, acc)
+        # E-hist over queue objects: a queue that is abandoned after j pops (a --limit run, a quit) must leave nothing behind for the queue that
+        # is built next in the same process
+        if idx % 40 == si % 40:
+            g0 = R.mem_grammar(PcfgGrammar, types, base)
+            for j in (1, 2, 3):
+                try:
+                    q0 = PcfgQueue(g0)
+                    for _ in range(j):
+                        if q0.next() is None:
+                            break
+                except Exception as e:
+                    fails.append(('C01', 'raise: a queue built after an abandoned one raised %r' % (e,)))
+                    break
+                fails3, seq3 = explore(mods, types, base, Acc0)
+                acc.count('runs_after_an_abandoned_queue')
+                if seq3 != seq:
+                    fails.append(('C01', 'abandoned: a queue abandoned after %d pops changes the run of the next queue: %r vs %r' % (j, seq3[:5], seq[:5])))
+                    fails.append(('C02', 'abandoned: a queue abandoned after %d pops changes the run of the next queue (%d pops instead of %d)' % (j, len(seq3), len(seq))))
+                    break
         # determinism: a second, independent run must give the identical sequence
         if idx % 2 == 0 or fails:
             fails2, seq2 = explore(mods, types, base, Acc0)
